@@ -2,6 +2,7 @@
    "model / specification applied to the observed input == observed output".  No proofs here. *)
 Require Import SF.Prelude SF.Value SF.Dtype SF.PyDyn Gen.Gen_util Gen.Gen_c14 SF.Missing.
 Require Export SF.MissingSpecCheck.
+Require Import SF.MissingFill.
 
 (* ---- util.isna_array, per element, driven by the REGENERATED kind constants of util.py ---- *)
 Definition kind_in (k : string) (c : pv) : bool :=
@@ -55,3 +56,6 @@ Definition M_dropna_keep (reshaped : bool) (axis1 use_any : bool) (nrows : nat) 
 
 Definition chk_dropna_keep_M (axis1 use_any : bool) (nrows : nat) (single1d : bool) (cols : list (list val)) (out : list bool) : bool :=
   blist_eqb (M_dropna_keep dropna_1d_reshaped axis1 use_any nrows single1d (map (map isna) cols)) out.
+(* Series.fillna(Series): the label-restricted fill; fillv = util.dtype_to_fill_value(other.dtype) as observed *)
+Definition chk_fillna_labels_M (fillv : val) (labels inp : list val) (olabels ovals : list val) (out : list val) : bool :=
+  cells_match (M_fillna_series py_val_eq (cell_of fillv) labels (cells_of inp) (combine olabels (cells_of ovals))) out.
